@@ -5,17 +5,54 @@ JUDGE = ("judge.J15", "J15.judge_i")
 JUDGE_IMPORTS = ("From NSQV Require Import model.Names model.Lookupd model.LookupProto judge.J14.",)
 JUDGE_SCOPE = "N_scope"
 REPO_BINS = [("nsqlookupd", "apps/nsqlookupd", "")]
-RULE = "stub"
-TRUSTED = []
-ASSUMPTIONS = []
-LEVEL_TEXT = "stub"
-LEVEL_NOTE = "stub"
-TECHNIQUE = "stub"
+RULE = ("sessions against a real nsqlookupd SUBPROCESS (binary built from the repository) with a well-behaved bystander producer that stays connected: "
+        "each session = 10-24 actions, ~52% hostile TCP streams (each followed by EOF), ~40% HTTP requests, the rest bystander PING/REGISTER. "
+        "Streams: wrong / short protocol magic; random bytes; a mostly-valid prefix (IDENTIFY, REGISTER/UNREGISTER also on the bystander's topic, PING with "
+        "ASCII and Unicode white space) followed by one malformed command labelled with the answer it must provoke: unknown commands, REGISTER/UNREGISTER "
+        "without parameters / before IDENTIFY / with invalid topic or channel names (bad characters, 65 bytes, bare '#ephemeral', NUL, non-breaking space, "
+        "empty), repeated IDENTIFY, IDENTIFY with size 0, negative sizes (0xFFFFFFFF, 0x80000000, ...), 1 MiB announced and a truncated body, body one to five "
+        "bytes short, size shorter than the JSON, missing size bytes, 12 kinds of malformed JSON, 8 kinds of missing fields; optionally followed by further "
+        "commands that must be ignored and by a last line without newline. HTTP: 27 paths (all routes but the 30 s CPU profile, unknown paths, trailing-slash "
+        "and case variants) x 7 methods x topic in {absent, empty, bystander's, new, invalid, wildcard, 65 bytes, ephemeral} x channel (7 values) x node (4 values), "
+        "unparsable queries (quick: sampled, biased to POST on the admin routes; thorough: the systematic matrix of 1700 requests). After EVERY action: /ping "
+        "liveness + process state, the raw frames / status code, /lookup of the bystander's topic, /topics, /channels?topic=*, /debug. "
+        "Every case is non-trivial; distinct = distinct terms.")
+TRUSTED = [
+    "modelled, not verified: bufio.Reader.ReadString / io.ReadFull / binary.Read (as: a line up to '\\n' or EOF; exactly n bytes or an error), "
+    "strings.TrimSpace (modelled byte-exactly incl. the UTF-8 encodings of the Unicode white-space code points) and strings.Split, "
+    "encoding/json.Unmarshal (an arbitrary function in the theorems; in the correspondence the driver decodes the announced body with the real library into the "
+    "real nsqlookupd.PeerInfo type and hands the result to the model), net/http + httprouter v1.3.0 (exact match -> handler; known path + other method -> 405, "
+    "OPTIONS -> 200; anything else is the router's own 404/301/307/308), the Go runtime's 'panic in a goroutine without recover kills the process'",
+    "a huge POSITIVE IDENTIFY size (up to 2 GiB) makes the daemon allocate that much: resource behaviour, not driven (largest announced size: 1 MiB) and not modelled",
+]
+ASSUMPTIONS = [
+    "C15 'partial': memory exhaustion by a huge positive body size is outside the model; the daemon's behaviour when the client stops reading (send errors) is not modelled (the driver always reads)",
+    "hostile connections are sequential (one stream at a time next to the bystander); concurrent hostile connections are covered by the isolation theorem, not by the driver",
+]
+LEVEL_TEXT = ("Machine-checked proof (Coq 8.16.1) over a byte-level executable model of tcp.go Handle + LookupProtocolV1.IOLoop/Exec/IDENTIFY/REGISTER/UNREGISTER/PING "
+              "(protocol magic, line read, TrimSpace, Split, dispatch, the int32 body size with the `bodyLen <= 0` refusal, make with an explicit Panic outcome, ReadFull, "
+              "JSON field check, fatal errors -> IOLoop exit path) and of the HTTP router + handlers: for EVERY byte sequence and every JSON decoder the connection "
+              "never panics (and the same model without the size refusal does, on the 13-byte witness); every malformed command is answered E_INVALID / E_BAD_TOPIC / "
+              "E_BAD_CHANNEL / E_BAD_BODY as specified and refused (nothing registered, connection closed, the error is the last frame); whatever arrives on connection p "
+              "is a sequence of p's own operations, so every other connection's registrations, tombstone marks, last_update and /lookup listing are unchanged; an HTTP "
+              "request not answered 200 changes nothing and only POST on the five admin routes can change the registry. The dispatch table, route table, handler "
+              "guard/call summaries (incl. the position of the size refusal before make) are regenerated from the source on every run and proved equal to the model's. "
+              "Tied to the code by differential correspondence on a real nsqlookupd subprocess with a bystander producer.")
+LEVEL_NOTE = ("Trusted: Coq kernel + vm_compute; gotables; stdlib/httprouter/runtime modelled as stated. Correspondence is sampled; the theorems are not. "
+              "Huge positive allocations and send-side failures are partial.")
+TECHNIQUE = "Coq proof over all byte sequences (no-panic, codes, isolation via refinement) + generated tables + differential correspondence on the real binary"
 DESIGN_REF = "DESIGN.md §5 C15"
 
 
 def drivers():
-    def args(tier, seed, scale):
-        n = (60 if tier == "quick" else 1200) * scale
+    def hostile(tier, seed, scale):
+        n = (70 if tier == "quick" else 900) * scale
         return ["-profile", "hostile", "-n", str(n), "-seed", str(seed)]
-    return [{"driver": "lookupdrive", "args": args, "replay_args": lambda tier: []}]
+
+    def matrix(tier, seed, scale):
+        if tier == "quick":
+            return ["-profile", "none"]
+        return ["-profile", "httpmatrix"]
+
+    return [{"driver": "lookupdrive", "args": hostile, "replay_args": lambda tier: []},
+            {"driver": "lookupdrive", "args": matrix, "replay_args": lambda tier: []}]
